@@ -34,7 +34,13 @@ from sigma.correlations import (
     SigmaExtendedCorrelationCondition,
     SigmaRuleReference,
 )
-from sigma.exceptions import SigmaBackendError, SigmaConversionError, SigmaError, SigmaValueError
+from sigma.exceptions import (
+    SigmaBackendError,
+    SigmaConversionError,
+    SigmaError,
+    SigmaFeatureNotSupportedByBackendError,
+    SigmaValueError,
+)
 from sigma.processing.pipeline import ProcessingPipeline
 from sigma.rule import SigmaRule
 from sigma.rule.detection import SigmaDetection, SigmaDetectionItem
@@ -304,6 +310,15 @@ class Backend(ABC):
                 return []
             else:
                 raise e
+        except NotImplementedError as e:
+            if self.collect_errors:  # feature not supported by backend: collect as Sigma error
+                self.errors.append(
+                    (rule, SigmaFeatureNotSupportedByBackendError(str(e), source=rule.source))
+                )
+                return []
+            msg = f" (while {error_state} rule {str(rule.source)})"
+            e.args = ((e.args[0] if e.args else "") + msg,) + e.args[1:]
+            raise
         except (
             Exception
         ) as e:  # enrich all other exceptions with Sigma-specific context information
